@@ -430,6 +430,9 @@ func (H) Gen(prop string, seed uint64, tier string) *hx.Case {
 		}
 		n := l.Add(b, 1<<40)
 		if n == nil {
+			if mut == "forged-parent" {
+				cfg.Blocks = append(cfg.Blocks, b) // names no block anybody knows: must be treated as an orphan
+			}
 			continue
 		}
 		boundary := len(o.Viol) > 3 && o.Viol[:3] == "ok-"
@@ -909,6 +912,14 @@ func (r *run) deliver(bi int, when string) {
 	blk := r.cfg.Blocks[bi]
 	hh := blk.Hash()
 	ln := r.nodes[bi]
+	if ln == nil && blk.Label == "forged-parent" {
+		err, _, _ := r.n.Deliver(blk.Bytes())
+		r.out.Probe("forged_parent_delivered", 1)
+		if err == nil {
+			r.viol("accepted-invalid.forged-parent", "%s: block %s names a previous block %x that nobody has ever seen (it shares just its first 8 bytes with a known block's hash) and was accepted into the block tree", when, hs(hh), blk.H.Prev[:])
+		}
+		return
+	}
 	if ln == nil || r.status[ln.Hash] == 4 {
 		return
 	}
